@@ -65,6 +65,10 @@ func Run(c *core.Ctx, replay string) (*core.Result, error) {
 		seed = rc.Seed
 	} else {
 		progs = c02.Programs(c.Seed, nProg, func(o *absprog.Opts, rng *rand.Rand) {})
+		// every field kind alone in its file: nothing it needs can come from a neighbour
+		for _, te := range absprog.MinimalKinds() {
+			progs = append(progs, absprog.Minimal(len(progs)+1, te))
+		}
 		progs = append(progs, witnessBytes(len(progs)+1), witnessDup(len(progs)+2))
 		nWitness = 2
 	}
@@ -157,7 +161,7 @@ func Run(c *core.Ctx, replay string) (*core.Result, error) {
 	res.Evaluations = len(recs)
 	res.TracesVsImpl = len(recs)
 	res.Nontrivial = len(distinct)
-	res.Rule = fmt.Sprintf("%d seeded random packages + 2 witnesses of recorded findings; per package the real TypeScript output is parsed into an environment and every document marshalled from %d reflection-built values per top-level type (compiled with the generated wrappers) is judged against it; distinct = distinct (type, document)", len(progs)-nWitness-skipped, nVals)
+	res.Rule = fmt.Sprintf("%d seeded random packages + 2 witnesses of recorded findings; per package the real TypeScript output is parsed into an environment and every document marshalled from %d reflection-built values per top-level type (compiled with the generated wrappers) is judged against it; distinct = distinct (type, document)", len(progs)-nWitness-skipped, nVals) + fmt.Sprintf("; %d of the packages are single-field programs (one field kind alone in the analysed file)", len(absprog.MinimalKinds()))
 	res.Extra = map[string]any{"programs_left_out": skipped}
 	return res, nil
 }
